@@ -180,6 +180,9 @@ fn run(args: &[String]) {
         .set("violation_signatures", total.violation_counts.len())
         .set("wall_s", t0.elapsed().as_secs_f64());
     if let Some(out) = &out {
+        if let Some(dir) = std::path::Path::new(out).parent() {
+            let _ = std::fs::create_dir_all(dir);
+        }
         std::fs::write(out, j.to_pretty()).expect("write partial evidence");
     }
 
